@@ -22,15 +22,19 @@ reference to the class, every subclass and isinstance() keep working.
 What is recorded.
   {"kind":"fn","fn":..,"args":[..],"kw":{..},"res":..|"exc":{type,mro,msg},"node":test id, ...}
         one line per DISTINCT call (same function, arguments and outcome are written once per process; the number of
-        calls is kept in the "count" line).  Extra observations the existing judges ask for are taken by calling the
-        ORIGINAL function again (pure functions; never recorded): "res2" = f(result) for the check-escaped encoders,
-        "alt" = parse_host(host + ":8042")[0] and, when a default port was given, "nodefault" = parse_host(host).
+        calls is kept in the "count" line).  Nothing else: the extra observations a judge may ask for (f(f(s)),
+        the same authority with another port, decode of an encoder's output ...) are taken by the CHECK, with the
+        event builders of the property that owns the judge, so the recorder does not depend on a judge's format.
   {"kind":"hist","cls":"reader.sync|reader.async|stream.wsgi|stream.asgi","ctor":{..},"src":[..],"data":..,"ev":[..],"flags":[..]}
         one line per reader / stream object: constructor arguments, everything its source returned (reader: the
         concatenated bytes and the list of asks; WSGI stream: every ask of wsgi.input with the size asked and the bytes
         returned; ASGI stream: every event receive() returned), then one event per OUTERMOST public call at its return
         (error path included) with arguments, result / exception and tell / eof where the class has them.  Sub-readers
-        made by delimit() write into the history of the reader they were cut from.
+        made by delimit() write into the history of the reader they were cut from.  Async iteration: a reader's loop is
+        one "iter" event when it is complete; an ASGI stream's loop is stepwise as BodyStreamTrace reads it - one
+        "iternext" per chunk (observed while the generator is suspended, i.e. from inside the loop body; stop=true for
+        the turn that ended the loop) and "iterbreak" when the suspended iterator is closed or something else is
+        called on the stream before the loop has ended.
   {"kind":"count", ...}   calls per function, histories per class (per process)
   {"kind":"meta", ...}    what was wrapped where
 
@@ -141,37 +145,7 @@ def _write(obj):
 # pure functions
 # ------------------------------------------------------------------------------------------------
 
-def _probe_none(orig, a, k, res, rec):
-    pass
-
-
-def _probe_ce(orig, a, k, res, rec):
-    # the check-escaped judge (UriTrace!JudgeCE) asks for f(f(s)): taken with the original, never recorded
-    if isinstance(res, str):
-        try:
-            rec['res2'] = enc(orig(res))
-        except Exception as ex:     # noqa
-            rec['res2'] = {'o': 'raised', 'r': repr(ex)[:120]}
-
-
-def _probe_host(orig, a, k, res, rec):
-    # UriTrace!JudgeHost asks for the host returned for the same authority followed by ":8042"
-    s = a[0] if a else k.get('host')
-    if isinstance(s, str) and isinstance(res, tuple):
-        try:
-            rec['alt'] = enc(orig(s + ':8042')[0])
-        except Exception as ex:     # noqa
-            rec['alt'] = {'o': 'raised', 'r': repr(ex)[:120]}
-        # ... and needs to know whether the port returned is the default or was read from the text: the same call
-        # without a default (None comes back iff the text carries no port)
-        if (len(a) > 1 and a[1] is not None) or k.get('default_port') is not None:
-            try:
-                rec['nodefault'] = enc(orig(s))
-            except Exception as ex:     # noqa
-                rec['nodefault'] = {'o': 'raised', 'r': repr(ex)[:120]}
-
-
-def _wrap_function(name, orig, probe=_probe_none):
+def _wrap_function(name, orig):
     def wrapper(*a, **k):
         if _FD[0] is None:
             return orig(*a, **k)
@@ -183,9 +157,9 @@ def _wrap_function(name, orig, probe=_probe_none):
         try:
             res = orig(*a, **k)
         except BaseException as ex:
-            _fn_record(name, ea, ek, None, ex, None, a, k, probe)
+            _fn_record(name, ea, ek, None, ex)
             raise
-        _fn_record(name, ea, ek, res, None, orig, a, k, probe)
+        _fn_record(name, ea, ek, res, None)
         return res
     try:
         functools.update_wrapper(wrapper, orig)
@@ -198,7 +172,7 @@ def _wrap_function(name, orig, probe=_probe_none):
     return wrapper
 
 
-def _fn_record(name, ea, ek, res, ex, orig, a, k, probe):
+def _fn_record(name, ea, ek, res, ex):
     try:
         rec = {'kind': 'fn', 'fn': name, 'args': ea, 'kw': ek}
         if ex is not None:
@@ -209,25 +183,22 @@ def _fn_record(name, ea, ek, res, ex, orig, a, k, probe):
         if key in _SEEN:
             return
         _SEEN.add(key)
-        if ex is None:
-            probe(orig, a, k, res, rec)
         rec['node'] = _NODE[0]
         _write(rec)
     except Exception as e2:     # noqa  (the recorder must never change the outcome of the call)
         _META['errors'].append('fn %s: %r' % (name, e2))
 
 
-_URI_FUNCS = {'decode': _probe_none, 'encode': _probe_none, 'encode_value': _probe_none,
-              'encode_check_escaped': _probe_ce, 'encode_value_check_escaped': _probe_ce,
-              'parse_host': _probe_host, 'parse_query_string': _probe_none}
+_URI_FUNCS = ('decode', 'encode', 'encode_value', 'encode_check_escaped', 'encode_value_check_escaped', 'parse_host',
+              'parse_query_string')
 
 
 def _patch_module_functions(module, names):
-    for name, probe in names.items():
+    for name in names:
         orig = getattr(module, name, None)
         if orig is None or getattr(orig, '_suite_recorder_original', None) is not None:
             continue
-        w = _wrap_function(name, orig, probe)
+        w = _wrap_function(name, orig)
         _ORIG[name] = orig
         _WRAP[id(orig)] = w
         setattr(module, name, w)
@@ -239,11 +210,11 @@ def _on_uri(module):
 
 
 def _on_misc(module):
-    _patch_module_functions(module, {'to_query_str': _probe_none})
+    _patch_module_functions(module, ('to_query_str',))
 
 
 def _on_mediatypes(module):
-    _patch_module_functions(module, {'quality': _probe_none, 'best_match': _probe_none})
+    _patch_module_functions(module, ('quality', 'best_match'))
 
 
 # ------------------------------------------------------------------------------------------------
@@ -288,7 +259,7 @@ class _Hist:
         return {'o': 'bytes', 'n': n}
 
     def event(self, e):
-        if self.iter_open is not None and e.get('op') != 'iter':
+        if self.iter_open is not None and e.get('op') not in ('iter', 'iternext', 'iterbreak'):
             self.flags.add('call_during_iteration')
         if len(self.ev) >= MAX_EVENTS:
             self.flags.add('too_many_events')
@@ -299,7 +270,7 @@ class _Hist:
         if self.written:
             return
         self.written = True
-        if self.iter_open is not None:
+        if self.iter_open is not None and not getattr(self.iter_open, '_stepwise', False):
             self.flags.add('partial_iteration')
         if not self.ev:
             _COUNT['hist_empty:' + self.cls] += 1
@@ -609,10 +580,12 @@ def _patch_delimit(cls, kind, is_async):
 
 
 class _AIter:
-    """what __aiter__ returns: forwards the iteration, notes the chunks; one "iter" event when it is complete"""
+    """what __aiter__ returns: forwards the iteration and notes the chunks.
+    stepwise=False (readers): one "iter" event when the loop is complete.
+    stepwise=True (ASGI stream): one "iternext" event per turn, "iterbreak" when it is closed while suspended."""
 
-    def __init__(self, it, h, owner, make_event, log):
-        self._it, self._h, self._owner, self._e, self._log = it, h, owner, make_event, log
+    def __init__(self, it, h, owner, make_event, log, stepwise=False):
+        self._it, self._h, self._owner, self._e, self._log, self._stepwise = it, h, owner, make_event, log, stepwise
         self._parts, self._n, self._done, self._started = [], 0, False, False
 
     def __aiter__(self):
@@ -624,6 +597,9 @@ class _AIter:
             self._started = True
             if h.iter_open is None:
                 h.iter_open = self
+            elif self._stepwise:
+                _stream_break(h)                          # a second loop while the first is suspended
+                h.iter_open = self
             else:
                 h.flags.add('call_during_iteration')     # a second iteration while the first is under way
         nested = h.depth > 0
@@ -632,13 +608,26 @@ class _AIter:
             chunk = await self._it.__anext__()
         except StopAsyncIteration:
             h.depth -= 1
-            self._finish(None, nested)
+            self._finish(None, nested, True)
             raise
         except BaseException as ex:
             h.depth -= 1
-            self._finish(ex, nested)
+            self._finish(ex, nested, True)
             raise
         h.depth -= 1
+        if self._stepwise:
+            if not nested:
+                try:
+                    e = self._e('iternext')
+                    if isinstance(chunk, (bytes, bytearray)):
+                        e['res'] = h.take(chunk)
+                    else:
+                        e['res'] = enc(chunk)
+                        e['badres'] = True
+                    self._log(e, None)
+                except Exception as e2:     # noqa
+                    _META['errors'].append('iternext: %r' % (e2,))
+            return chunk
         try:
             self._n += len(chunk)
             if self._parts is not None and h.stored + self._n <= MAX_STORE:
@@ -649,7 +638,7 @@ class _AIter:
             h.flags.add('iteration_yielded_non_bytes')
         return chunk
 
-    def _finish(self, ex, nested):
+    def _finish(self, ex, nested, ended):
         if self._done:
             return
         self._done = True
@@ -659,7 +648,15 @@ class _AIter:
         if nested:
             return
         try:
-            e = self._e()
+            if self._stepwise:
+                e = self._e('iternext')
+                if ex is not None:
+                    self._log(e, ex)
+                else:
+                    e['stop'] = True
+                self._log(e, None)
+                return
+            e = self._e('iter')
             if ex is not None:
                 self._log(e, ex)
             elif self._parts is not None:
@@ -671,8 +668,31 @@ class _AIter:
         except Exception as e2:     # noqa
             _META['errors'].append('iter: %r' % (e2,))
 
+    async def aclose(self):
+        h = self._h
+        h.depth += 1
+        try:
+            return await self._it.aclose()
+        finally:
+            h.depth -= 1
+            if self._stepwise and self._started and not self._done and h.iter_open is self:
+                self._done = True
+                _stream_break(h)
+
     def __getattr__(self, name):
         return getattr(self._it, name)
+
+
+def _stream_break(h):
+    """the suspended loop of an ASGI stream is over without having ended: "iterbreak", observed now"""
+    it = h.iter_open
+    h.iter_open = None
+    if it is None:
+        return
+    try:
+        it._log(it._e('iterbreak'), None)
+    except Exception as e2:     # noqa
+        _META['errors'].append('iterbreak: %r' % (e2,))
 
 
 def _patch_async_reader(module):
@@ -789,7 +809,7 @@ def _patch_async_reader(module):
                 return
             _reader_enter(h, self, e)
             _reader_log(h, self, e, True)
-        return _AIter(it, h, self, lambda: _rev('iter'), log)
+        return _AIter(it, h, self, lambda op: _rev(op), log)
     cls.__aiter__ = __aiter__
     cls._suite_recorder_patched = cls
     _META['classes'].append(_tname(cls))
@@ -1039,6 +1059,8 @@ def _patch_asgi_stream(module):
             h = _hist_of(self) or _late_hist('stream.asgi', self)
             if h.depth:
                 return await orig(self, *a, **k)
+            if h.iter_open is not None:
+                _stream_break(h)             # something else is called while a loop over the stream is suspended
             try:
                 e = build(*a, **k)
             except Exception as ex:     # noqa
@@ -1075,6 +1097,8 @@ def _patch_asgi_stream(module):
         h = _hist_of(self) or _late_hist('stream.asgi', self)
         if h.depth:
             return o_close(self)
+        if h.iter_open is not None:
+            _stream_break(h)
         e = _sev('close')
         try:
             res = o_close(self)
@@ -1102,7 +1126,7 @@ def _patch_asgi_stream(module):
                 _stream_err(e, ex)
                 return
             log(h, self, e)
-        return _AIter(it, h, self, lambda: _sev('iter'), lg)
+        return _AIter(it, h, self, lambda op: _sev(op), lg, stepwise=True)
     cls.__aiter__ = __aiter__
     cls._suite_recorder_patched = cls
     _META['classes'].append(_tname(cls))
